@@ -198,7 +198,13 @@ func PyPI(r *rand.Rand) string {
 		s += Pick(r, ".dev", "dev", "-dev", "_dev") + Pick(r, "", "0", "1", "2")
 	}
 	if r.Intn(5) == 0 {
-		s += "+" + Pick(r, "abc", "1", "abc.1", "1.abc", "a-b_c", "ubuntu.2", "2", "10", "ABC", "01", "a.10", "a.9")
+		// One to three segments, so that labels that are prefixes of each
+		// other (with a numeric or an alphabetic extra segment) are common.
+		l := Pick(r, "abc", "1", "a", "ubuntu", "2", "10", "ABC", "01")
+		for k := r.Intn(3); k > 0; k-- {
+			l += Pick(r, ".", ".", "-", "_") + Pick(r, "abc", "1", "x", "2", "10", "9", "b", "c", "dirty", "01", "A")
+		}
+		s += "+" + l
 	}
 	return s
 }
@@ -439,6 +445,11 @@ func Variant(sys semver.System, s string, r *rand.Rand) string {
 		return s[:start] + "0" + s[start:]
 	case 3: // build metadata / local version
 		if strings.Contains(s, "+") {
+			// Drop the label, or grow it by one segment (a label that is a
+			// prefix of another one is where segment-wise comparison ends).
+			if r.Intn(2) == 0 {
+				return s + "." + Pick(r, "x", "1", "dirty", "0", "b")
+			}
 			return s[:strings.IndexByte(s, '+')]
 		}
 		return s + "+" + Pick(r, "b", "1", "x.1")
